@@ -168,10 +168,12 @@ func runC12(c *Ctx) {
 		}
 		// status fields written on the in-memory request
 		statusWrites := map[string][]ssa.Instruction{}
-		for _, in := range instrsIn(us, func(in ssa.Instruction) bool { _, ok := in.(*ssa.Store); return ok }) {
-			t := termOf(in.(*ssa.Store).Addr)
+		writeHit := map[ssa.Instruction]deepHit{}
+		for _, h := range p.deepFind(us, func(in ssa.Instruction) bool { _, ok := in.(*ssa.Store); return ok }, 2) {
+			t := liftTerm(termOf(h.In.(*ssa.Store).Addr), h.Chain)
 			if t.Op == "field" && t.Args[0].lastField() == "Status" && rootParam(t) == 2 {
-				statusWrites[t.Name] = append(statusWrites[t.Name], in)
+				statusWrites[t.Name] = append(statusWrites[t.Name], h.In)
+				writeHit[h.In] = h
 			}
 		}
 		c.Floor("O4", "MPT status fields written", len(statusWrites), 3)
@@ -182,7 +184,9 @@ func runC12(c *Ctx) {
 				continue
 			}
 			for _, w := range ws {
-				_, path, found := reachAvoiding([]cfgPos{afterInstr(w)}, isReturn, isPatch, func(from, to *ssa.BasicBlock) bool {
+				start := afterInstr(w)
+				start.Ctx = writeHit[w].Chain
+				_, path, found := reachAvoiding([]cfgPos{start}, isReturn, isPatch, func(from, to *ssa.BasicBlock) bool {
 					// prune edges that establish "this field is unchanged" (original.Status.F == current.Status.F)
 					return !fx.edgeEstablishes(from, to, func(f Fact) bool {
 						return f.Pol && f.T.Op == "bin" && f.T.Name == "==" && f.T.Args[0].lastField() == fld && f.T.Args[1].lastField() == fld
@@ -193,11 +197,12 @@ func runC12(c *Ctx) {
 			}
 		}
 		// O5: retry ⇔ not terminal — the requeue is scheduled exactly when BackoffLimit is set and attempts < limit
-		for _, in := range instrsIn(us, func(in ssa.Instruction) bool {
+		for _, h := range p.deepFind(us, func(in ssa.Instruction) bool {
 			st, ok := in.(*ssa.Store)
 			return ok && termOf(st.Addr).lastField() == "RequeueAfter"
-		}) {
-			fs := fx.FactsAt(in)
+		}, 2) {
+			in := h.In
+			fs := fx.factsAtDeep(h)
 			_, limSet := hasFact(fs, func(f Fact) bool { return !f.Pol && f.T.Op == "bin" && f.T.Name == "==" && f.T.Args[0].lastField() == "BackoffLimit" && f.T.Args[1].isNilConst() })
 			_, below := hasFact(fs, func(f Fact) bool {
 				return f.Pol && f.T.Op == "bin" && f.T.Name == "<" && f.T.Args[0].lastField() == "FailedAttempts" && strings.Contains(f.T.Args[1].String(), "BackoffLimit")
